@@ -1,22 +1,37 @@
 #!/venv/bin/python
-"""claims_from_notes.py - collect the MANIFEST proposals written by the builders in notes/Cxx.md into notes/claims.json
-(level_claimed.text = the block quote after `level_claimed.text`; level_note = the paragraph after `level_note`)."""
+"""claims_from_notes.py - collect the MANIFEST proposals written by the builders in notes/Cxx.md into notes/claims.json."""
 import glob
 import json
 import os
 import re
 
 ROOT = os.path.dirname(os.path.dirname(os.path.abspath(__file__)))
+
+
+def clean(t):
+    t = '\n'.join(ln.lstrip('> ').rstrip() for ln in t.strip().split('\n'))
+    t = ' '.join(t.split())
+    return t.strip('"').strip()
+
+
 out = {}
 for path in sorted(glob.glob(os.path.join(ROOT, 'notes', 'C[0-9][0-9].md'))):
     pid = os.path.basename(path)[:-3]
     s = open(path, encoding='utf-8').read()
-    m = re.search(r'level_claimed\.text`?\s*:?\s*\n((?:>.*\n?)+)', s)
-    text = ' '.join(ln.lstrip('> ').strip() for ln in m.group(1).split('\n')).strip() if m else ''
-    m = re.search(r'`?level_note`?\s*:\s*((?:.+\n?)+?)(?:\n\s*\n|\n##|\Z)', s)
-    note = ' '.join(m.group(1).split()) if m else ''
-    note = note.lstrip('> ').replace(' > ', ' ')
+    text = note = ''
+    m = re.search(r'```json\s*(\{.*?"level_claimed".*?\})\s*```', s, re.S)
+    if m:
+        try:
+            d = json.loads(m.group(1))
+            text, note = d['level_claimed']['text'], d.get('level_note', '')
+        except (ValueError, KeyError):
+            pass
+    if not text:
+        m = re.search(r'`level_claimed\.text`\s*:\s*(.*?)(?=\n\s*\n|\n`level_note|\n##|\Z)', s, re.S)
+        text = clean(m.group(1)) if m else ''
+        m = re.search(r'`level_note`\s*:\s*(.*?)(?=\n\s*\n|\n##|\Z)', s, re.S)
+        note = clean(m.group(1)) if m else ''
     if text:
-        out[pid] = {'text': text, 'note': note or 'see notes/%s.md' % pid, 'ref': f'DESIGN.md section 5 {pid}; notes/{pid}.md'}
+        out[pid] = {'text': text, 'note': note or f'see notes/{pid}.md', 'ref': f'DESIGN.md section 5 {pid}; notes/{pid}.md'}
 json.dump(out, open(os.path.join(ROOT, 'notes', 'claims.json'), 'w', encoding='utf-8'), indent=1)
 print('claims:', sorted(out))
